@@ -406,11 +406,25 @@ def isolate_designs(shapes, designs, where, broken):
 
 
 # ------------------------------------------------------------------ concretisation
+# the precision-sensitive value shapes of GRPCTransport.tla (PrecLeaf), one number each
+PREC = {("float", "frac"): 0.1, ("float", "odd24"): 16777217.0, ("float", "over32"): 1e39,
+        ("float", "max32"): 3.4028235e38,       # the shortest text that reads back as the largest float32
+        ("int", "max32"): 2 ** 31 - 1, ("uint", "max32"): 2 ** 32 - 1, ("int", "b32"): 2 ** 32 + 1, ("uint", "b32"): 2 ** 32 + 1}
+
+
+def prec(v):
+    return (not is_absent(v)) and (v["cls"], v["s"]) in PREC
+
+
+def leaf_of(a, v):
+    return PREC[(v["cls"], v["s"])] if prec(v) else hg.concrete_leaf(a, v)
+
+
 def concrete_path(a, v, mname):
     """The datum of a composed nesting: the leaf (or, in a container, cn entries of which the last holds the leaf)
     wrapped step by step; a OneOf holds member x (the rest of the path) or - value shape cn = 2 - member y."""
     path = path_of(a)
-    leaf = hg.concrete_leaf(a, v)
+    leaf = leaf_of(a, v)
     alty = "oneof" in path and v["cn"] == 2
     cn = 1 if "oneof" in path else v["cn"]
 
@@ -440,7 +454,7 @@ def concrete_path(a, v, mname):
 def concrete(a, v, mname):
     if is_absent(v):
         return None
-    if composed(a):
+    if composed(a) or prec(v):
         return concrete_path(a, v, mname)
     if a["nest"] == "oneof":
         if v["cn"] == 2:
